@@ -193,6 +193,112 @@ def check_finish_window(ctx, cfg, rule="C04.F", only=None):
     return n
 
 
+RAW_READS = ("core::ptr::read", "core::ptr::read_unaligned", "core::ptr::read_volatile",
+             "core::ptr::mut_ptr::<impl *mut T>::read", "core::ptr::const_ptr::<impl *const T>::read",
+             "core::ptr::mut_ptr::<impl *mut T>::read_unaligned", "core::ptr::const_ptr::<impl *const T>::read_unaligned")
+RAW_WRITES = ("core::ptr::write", "core::ptr::write_unaligned", "core::ptr::mut_ptr::<impl *mut T>::write", "core::ptr::mut_ptr::<impl *mut T>::write_unaligned")
+
+
+def local_duplicates(db, analysis, emit, rule="C04.D"):
+    """Values other than elements (an accumulator, a seed, a half-built result) must not exist twice while caller code runs: a bitwise copy read
+    through a raw pointer out of a plain local - the function's own, or the enclosing function's through a closure upvar - leaves the local the
+    owner of the original; if a call that can run caller code follows before the slot is written back, and drop elaboration drops that local on
+    the unwind path (of the call itself, or of the call that drives the closure), the unwinding frame and the local release the value twice."""
+    from ..typestate import upvar_ptr
+    from ..ownership import resolved_args, find_in
+    cl = Classifier(db)
+    n = 0
+    for b in db.bodies:
+        if b["kind"] not in ("Fn", "AssocFn", "Closure"):
+            continue
+        if not any(t["term"]["k"] == "call" and t["term"]["f"].get("k") == "fn" and t["term"]["f"]["def"] in RAW_READS for t in b["mir"]["blocks"]):
+            continue
+        a = analysis(b["key"])
+        reads = [c for c in a.calls if c.fn in RAW_READS and c.args and c.args[0][0] == "P"]
+        if not reads:
+            continue
+        foreign = [c for c in a.calls if cl.classify(c, b) == "foreign" and not getattr(c, "no_effects", False)]
+        for j, r_ in enumerate(reads):
+            p = r_.args[0]
+            if p[2].t:
+                continue   # an offset into storage: element slots are the subject of C04.P / C04.Y
+            later = [f_ for f_ in foreign if f_ is not r_ and a.dominates(r_.bb, f_.bb) and f_.bb != r_.bb]
+            # a write back through the same pointer in between restores single ownership
+            writes = [w for w in a.calls if w.fn in RAW_WRITES and w.args and w.args[0][0] == "P" and w.args[0][1] == p[1] and not w.args[0][2].t]
+            later = [f_ for f_ in later if not any(a.dominates(r_.bb, w.bb) and a.dominates(w.bb, f_.bb) and w.bb != f_.bb for w in writes)]
+            if not later:
+                continue
+            target = None   # (analysis of the frame that owns the local, local number, call whose unwind path matters per later call)
+            if p[1][0] == "local" and len(p[1]) == 2:
+                target = ("own", a, p[1][1], None)
+            else:
+                up = upvar_ptr(p[1]) if b["kind"] == "Closure" else None
+                if up is not None:
+                    parent = db.by_path.get(b["root"])
+                    if parent is not None and parent["key"] != b["key"]:
+                        ap = analysis(parent["key"])
+                        aggs = [g for g in ap.aggregates if isinstance(g["kind"], tuple) and g["kind"][0] == "closure" and g["kind"][1] == b["path"]]
+                        if len(aggs) == 1 and up[0] < len(aggs[0]["ops"]):
+                            op = aggs[0]["ops"][up[0]]
+                            cval = ("A", aggs[0]["kind"], aggs[0]["ops"])
+                            drivers = [c for c in ap.calls if cl.classify(c, parent) == "foreign" and any(find_in(x, lambda t: t == cval) for x in resolved_args(ap, c))]
+                            if len(drivers) == 1 and op[0] == "P" and op[1][0] == "local" and len(op[1]) == 2 and not op[2].t:
+                                loc = op[1][1]
+                                if up[1] == 2:
+                                    # the upvar refers to a local holding the pointer: what that local holds when the driver runs
+                                    from ..absint import State
+                                    pv = ap.read_cell(State(drivers[0].mem, drivers[0].facts), op[1], (), None)
+                                    loc = pv[1][1] if pv and pv[0] == "P" and pv[1][0] == "local" and len(pv[1]) == 2 and not pv[2].t else None
+                                if loc is not None:
+                                    target = ("parent", ap, loc, drivers[0])
+            if target is None:
+                continue   # not a plain local (a slot of an owner, a caller's buffer): other rules
+            kind, fa, loc, drv = target
+            bad = []
+            for f_ in later:
+                dropped, has_unwind = unwind_drops(fa, drv if drv is not None else f_)
+                if loc in dropped:
+                    bad.append(f_.fn.split("::")[-1])
+            n += 1
+            emit(rule, "%s#read#%d" % (b["key"], j), PROVED if not bad else REFUTED,
+                   ("the value read out of local _%d%s is either written back before, or not released by that local on the unwind path of, every later call that can run caller code (%d such calls)" % (
+                       loc, "" if kind == "own" else " of the enclosing function", len(later))) if not bad else
+                   ("a bitwise copy of local _%d%s is live while %s can unwind, and drop elaboration still drops that local on the unwind path: the value is released twice" % (
+                       loc, "" if kind == "own" else " of the enclosing function", ", ".join(sorted(set(bad))))), r_.at)
+    return n
+
+
+def check_local_duplicates(ctx, cfg, rule="C04.D"):
+    import os
+    import tempfile
+    from ..core import VERIF
+    from ..facts import Facts
+    from ..absint import analyze
+    db = ctx.db(cfg)
+    n = local_duplicates(db, lambda key: ctx.analysis(cfg, key), lambda r, key, st, det, at: ctx.ob(r, key, st, det, at=at, cfg=cfg, frozen=False), rule)
+    ctx.ob(rule, "sweep (%s)" % cfg, PROVED, "raw reads of whole plain locals followed by a call that can run caller code: %d site(s) judged (none on the reviewed tree: the crate threads accumulators by value)" % n, cfg=cfg)
+    # the rule has no instance on the reviewed tree: it must fire on the positive fixture and stay silent on its twin, on every run
+    bld = ctx.builds[cfg]
+    out = os.path.join(tempfile.mkdtemp(prefix="c04d-", dir=bld.dir), "facts.json")
+    rc, diags, facts, stderr = bld.compile_witness(os.path.join(VERIF, "fixtures", "c04_local_dup", "lib.rs"), out_facts=out, crate_name="c04_fixture")
+    if rc != 0 or facts is None:
+        ctx.ob(rule, "fixture (%s)" % cfg, MISSING, "fixture did not compile: %s" % stderr[-300:], cfg=cfg)
+        return n
+    fdb = Facts(facts)
+    cache = {}
+
+    def fan(key):
+        if key not in cache:
+            cache[key] = analyze(fdb, fdb.get(key))
+        return cache[key]
+    got = {}
+    local_duplicates(fdb, fan, lambda r, key, st, det, at: got.setdefault(key.split("#")[0].split("::{")[0], []).append(st), rule)
+    ok = got.get("fold_in_place") == [REFUTED] and got.get("fold_loop") == [REFUTED] and REFUTED not in got.get("fold_in_place_guarded", [])
+    ctx.ob(rule, "fixture (%s)" % cfg, ok, "on the fixture: accumulator in a plain local read through a closure upvar -> %s, in a loop of the same frame -> %s (required: refuted), the ManuallyDrop twin -> %s (required: not refuted)" % (
+        got.get("fold_in_place"), got.get("fold_loop"), got.get("fold_in_place_guarded", "no finding")), cfg=cfg)
+    return n
+
+
 def check(ctx):
     ctx.explanation = EXPLANATION
     ctx.trusted = ["rustc drop elaboration (live locals are dropped on unwind edges; cleanup blocks and drop flags are explicit in MIR)",
@@ -214,5 +320,6 @@ def check(ctx):
         # before the caller's code can run (shared rule, stated in c05)
         from . import c05
         c05.check_duplicate_window(ctx, cfg, rule="C04.Y")
+        check_local_duplicates(ctx, cfg)
         l = check_extend_callers(ctx, cfg)
         ctx.floor("C04.L", "owner-liveness obligations at foreign calls (%s)" % cfg, l, 1)
